@@ -30,8 +30,9 @@ SelEncodable(s) == \/ s.tst = 7 /\ Len(s.sa) = 4 /\ Len(s.ea) = 4
 
 BodyLen(p) == Len(EncBodyW(PayloadPlain(p)))
 
+PKindNames == {"SA", "KE", "IDi", "IDr", "CERT", "CERTREQ", "AUTH", "NONCE", "N", "D", "V", "TSi", "TSr", "CP", "EAP"}
 PayloadEncodable(p) ==
-  /\ p.k \in {"SA", "KE", "IDi", "IDr", "CERT", "CERTREQ", "AUTH", "NONCE", "N", "D", "V", "TSi", "TSr", "CP", "EAP"}
+  /\ p.k \in PKindNames
   /\ CASE p.k = "SA" -> \A i \in 1..Len(p.props) : PropEncodable(p.props[i])
        [] p.k \in {"KE", "IDi", "IDr", "CERT", "CERTREQ", "AUTH"} -> Len(p.data) >= 1
        [] p.k \in {"NONCE", "V"} -> TRUE
